@@ -439,6 +439,9 @@ impl Prop for C18 {
     fn floors(&self) -> Vec<(&'static str, f64)> {
         vec![("bp_in_def_hit_twice", 0.2)]
     }
+    fn render(&self, _ctx: &mut Ctx, ch: &mut Choices) -> String {
+        gen_prog(ch).src
+    }
     fn run(&self, ctx: &mut Ctx, ch: &mut Choices) -> CaseResult {
         let p = gen_prog(ch);
         let mut r = CaseResult::new(p.src.clone());
